@@ -191,10 +191,15 @@ def blockwise(
         # For each dimension, use the input chunking that has the most blocks;
         # this will ensure that broadcasting works as expected, and in
         # particular the number of blocks should be correct if the inputs are
-        # consistent.
+        # consistent.  When the numbers of blocks tie, a dimension of length
+        # one is the one being broadcast and yields to the other chunking.
         for arg, ind in arginds:
             for c, i in zip(arg.chunks, ind):
-                if i not in chunkss or len(c) > len(chunkss[i]):
+                if (
+                    i not in chunkss
+                    or len(c) > len(chunkss[i])
+                    or (len(c) == len(chunkss[i]) and chunkss[i] == (1,))
+                ):
                     chunkss[i] = c
         arrays = args[::2]
 
